@@ -244,6 +244,8 @@ namespace smt
             {
                 for (auto it1 = it0 + 1; it1 != ls.cend(); ++it1)
                 {
+                    if (*it1 == *it0)
+                        continue; // a repetition of the true literal..
                     if (value(*it1) == True || *it1 == !p)
                         return FALSE_lit; // the at-most-one cannot be satisfied..
                     else if (value(*it1) != False && *it1 != p)
@@ -253,7 +255,11 @@ namespace smt
                         ls[lits_size++] = p;
                     }
                 }
-                break;
+                // one of the literals is already true: the at-most-one holds iff all the others are false..
+                ls.resize(lits_size);
+                for (auto &l : ls)
+                    l = !l;
+                return new_conj(std::move(ls));
             }
             else if (value(*it0) != False && *it0 != p)
             { // we need to include this literal in the at-most-one..
